@@ -59,11 +59,14 @@ def wrap_unwrap(chk: Check, repo: Repo) -> None:
     chk.ob("wrapper-carries-ctr-output", enc.site(sw), fields.get("encrypted_data") == e_out[0] and fields.get("message_authentication_code") == e_out[1], f"wrapper carries the CTR outputs {e_out}", key="wrapper-ctr-out")
     plain_s = ast.unparse(es["payload"])
     plain_r = d_out[0]
-    ren_s = {fields["sequence_information"]: "W.sequence_information", fields["serial_number"]: "W.serial_number", fields["message_tag"]: "W.message_tag", fields["secure_session_id"]: "W.secure_session_id", plain_s: "PLAIN", "wrapper_header": "HEADER"}
+    # the sender's header local, found by what it is (4 constant octets + a 2-octet length), not by its name
+    hdr_name = next((k for k, v in ds.items() if isinstance(v, ast.BinOp) and isinstance(v.op, ast.Add) and isinstance(repo.fold(v.left, enc.module, enc.cls), bytes) and len(repo.fold(v.left, enc.module, enc.cls)) == 4), None)
+    if hdr_name is None:
+        raise AnalysisError("encrypt_frame: the wrapper header (4 constant octets + total length) is not a single-assignment local")
+    ren_s = {fields["sequence_information"]: "W.sequence_information", fields["serial_number"]: "W.serial_number", fields["message_tag"]: "W.message_tag", fields["secure_session_id"]: "W.secure_session_id", plain_s: "PLAIN", hdr_name: "HEADER"}
     ren_r = {f"{p_dec}.body.{f}": f"W.{f}" for f in need}
     ren_r.update({plain_r: "PLAIN", f"{p_dec}.header.to_knx()": "HEADER"})
-    ds2 = {k: v for k, v in ds.items() if k not in ren_s and k != "payload_length"}
-    ds2["payload_length"] = ds.get("payload_length", ast.parse("len(PLAIN)", mode="eval").body)
+    ds2 = {k: v for k, v in ds.items() if k not in ren_s}
     dr2 = {k: v for k, v in dr.items() if k not in ren_r}
 
     def norm_r(e):
@@ -93,24 +96,56 @@ def wrap_unwrap(chk: Check, repo: Repo) -> None:
     for comp in ("HEADER", "W.secure_session_id", "W.sequence_information", "W.serial_number", "W.message_tag", "W.encrypted_data", "W.message_authentication_code"):
         chk.ob("protected-component-reaches-mac", dec.site(), comp in blob, f"{comp} is an input of the receiver's MAC/CTR computation", key=f"wrap-protected|{comp}")
     # header the sender authenticates == header the frame carries
-    hdr = ds.get("wrapper_header")
-    tl = ds.get("total_length")
+    hdr = ds.get(hdr_name)
+    tl_name = hdr.right.func.value.id if isinstance(hdr, ast.BinOp) and isinstance(hdr.right, ast.Call) and isinstance(hdr.right.func, ast.Attribute) and hdr.right.func.attr == "to_bytes" and isinstance(hdr.right.func.value, ast.Name) and [repo.fold(a, enc.module, enc.cls) for a in hdr.right.args] == [2, "big"] else None
+    tl = ds.get(tl_name) if tl_name else None
     sw_cls = repo.cls("xknx.knxip.secure_wrapper", "SecureWrapper")
     sec_info = repo.module_const("xknx.knxip.secure_wrapper", "SECURITY_INFORMATION_LENGTH")
     mac_len = repo.module_const("xknx.knxip.secure_wrapper", "MESSAGE_AUTHENTICATION_CODE_LENGTH")
     hl = repo.const(repo.cls("xknx.knxip.header", "KNXIPHeader"), "HEADERLENGTH")
     svc = repo.fold(ast.parse("KNXIPServiceType.SECURE_WRAPPER", mode="eval").body, repo.module(M))
     ok = False
-    detail = "wrapper_header / total_length not single-assignment locals"
+    detail = "the wrapper header is not `<4 constant octets> + <total length local>.to_bytes(2, 'big')` with a single-assignment total length"
     if hdr is not None and tl is not None:
-        t = ast.unparse(tl)
-        consts = [repo.fold(x, enc.module, enc.cls) for x in ast.walk(tl) if isinstance(x, ast.Constant)]
-        prefix = repo.fold(hdr.left, enc.module, enc.cls) if isinstance(hdr, ast.BinOp) else NOFOLD
+        t = normalise(tl, {k: v for k, v in ds2.items() if k != tl_name}, ren_s)
+        prefix = repo.fold(hdr.left, enc.module, enc.cls)
         want_prefix = bytes([hl, 0x10]) + (svc.value.to_bytes(2, "big") if isinstance(svc, EnumMember) and isinstance(svc.value, int) else b"??") if isinstance(hl, int) else None
         want_total = (hl + sec_info + mac_len) if all(isinstance(x, int) for x in (hl, sec_info, mac_len)) else None
-        ok = prefix == want_prefix and consts == [want_total] and "payload_length" in t and ast.unparse(hdr.right) == "total_length.to_bytes(2, 'big')"
-        detail = f"sender header prefix {prefix!r} (required {want_prefix!r}: header length, version 0x10, service SECURE_WRAPPER); total_length = {t} (required {want_total} + payload length = header {hl} + security info {sec_info} + MAC {mac_len})"
+        ok = prefix == want_prefix and t in (f"{want_total} + len(PLAIN)", f"len(PLAIN) + {want_total}")
+        detail = f"sender header prefix {prefix!r} (required {want_prefix!r}: header length, version 0x10, service SECURE_WRAPPER); total length = {t} (required {want_total} + len(PLAIN) = header {hl} + security info {sec_info} + MAC {mac_len} + payload)"
     chk.ob("authenticated-header-is-sent-header", enc.site(), ok, detail, key="wrap-header")
+
+
+def mac_locals(fn) -> tuple[set[str], set[str]]:
+    """(locals bound to a recomputed CBC-MAC, locals bound to the transmitted MAC recovered by decrypt_ctr) — by the
+    calls that define them, not by their names"""
+    cbc, tr = set(), set()
+    for n in walk_local(fn.node):
+        if isinstance(n, ast.Assign) and len(n.targets) == 1 and isinstance(n.value, ast.Call):
+            t = n.targets[0]
+            nm = call_name(n.value)
+            if nm == "calculate_message_authentication_code_cbc" and isinstance(t, ast.Name):
+                cbc.add(t.id)
+            if nm == "decrypt_ctr" and isinstance(t, ast.Tuple) and len(t.elts) == 2 and isinstance(t.elts[1], ast.Name):
+                tr.add(t.elts[1].id)
+    return cbc, tr
+
+
+def mismatch_fact(facts, cbc: set[str], tr: set[str]) -> bool:
+    """the facts say: recomputed MAC != transmitted MAC"""
+    for text, val in facts:
+        nc = norm_cmp(ast.parse(text, mode="eval").body, val)
+        if nc and nc[1] == "!=" and ((nc[0] in cbc and nc[2] in tr) or (nc[0] in tr and nc[2] in cbc)):
+            return True
+    return False
+
+
+def match_fact(facts, cbc: set[str], tr: set[str]) -> bool:
+    for text, val in facts:
+        nc = norm_cmp(ast.parse(text, mode="eval").body, val)
+        if nc and nc[1] == "==" and ((nc[0] in cbc and nc[2] in tr) or (nc[0] in tr and nc[2] in cbc)):
+            return True
+    return False
 
 
 def timer_notify(chk: Check, repo: Repo) -> None:
@@ -148,13 +183,9 @@ def timer_notify(chk: Check, repo: Repo) -> None:
     cfg = CFG(rcv.node)
     raises = [n for n in cfg.nodes if isinstance(n.ast, ast.Raise) and "KNXSecureValidationError" in ast.unparse(n.ast)]
     mf = cfg.must_facts()
-    ok = False
-    for r in raises:
-        for text, val in mf[r.id]:
-            nc = norm_cmp(ast.parse(text, mode="eval").body, val)
-            if nc and nc[1] == "!=" and {nc[0], nc[2]} == {"mac_cbc", "mac_tr"}:
-                ok = True
-    exit_ok = all(("mac_cbc != mac_tr", False) in mf[cfg.exit] or ("mac_cbc == mac_tr", True) in mf[cfg.exit] for _ in [0])
+    cbc_n, tr_n = mac_locals(rcv)
+    ok = any(mismatch_fact(mf[r.id], cbc_n, tr_n) for r in raises)
+    exit_ok = match_fact(mf[cfg.exit], cbc_n, tr_n)
     chk.ob("timer-mac-gate", rcv.site(), ok and exit_ok, "verify_timer_notify_mac raises on MAC mismatch and returns normally only on equality", key="timer-gate")
 
 
@@ -164,11 +195,8 @@ def handshake(chk: Check, repo: Repo) -> None:
     cfg = CFG(hs.node)
     mf = cfg.must_facts()
     raises = [n for n in cfg.nodes if isinstance(n.ast, ast.Raise) and "IPSecureError" in ast.unparse(n.ast)]
-    ok = False
-    for r in raises:
-        facts = {t: v for t, v in mf[r.id]}
-        if facts.get("self._device_authentication_code") is True and any(norm_cmp(ast.parse(t, mode="eval").body, v) and norm_cmp(ast.parse(t, mode="eval").body, v)[1] == "!=" and {"mac_tr", "response_mac_cbc"} == {norm_cmp(ast.parse(t, mode="eval").body, v)[0], norm_cmp(ast.parse(t, mode="eval").body, v)[2]} for t, v in mf[r.id]):
-            ok = True
+    cbc_n, tr_n = mac_locals(hs)
+    ok = any(("self._device_authentication_code", True) in mf[r.id] and mismatch_fact(mf[r.id], cbc_n, tr_n) for r in raises)
     chk.ob("handshake-mac-checked", hs.site(), ok, "with a device authentication code configured, a SessionResponse whose MAC differs from the recomputed one raises IPSecureError", key="handshake-gate")
     # the key derivation / authenticate MAC happen after the check
     key_w = [n for n in cfg.nodes if isinstance(n.ast, ast.Assign) and ast.unparse(n.ast.targets[0]) == "self._key"]
@@ -176,9 +204,12 @@ def handshake(chk: Check, repo: Repo) -> None:
     # recomputed MAC covers header, session id and both public keys
     macs = [c for c in calls(hs.node) if call_name(c) == "calculate_message_authentication_code_cbc"]
     ds = single_assignments(hs.node)
-    resp = [c for c in macs if "response" in normalise(bind_call(c, repo.func(PRIM, "calculate_message_authentication_code_cbc")).get("additional_data", ast.Constant(None)))]
-    txt = normalise(bind_call(resp[0], repo.func(PRIM, "calculate_message_authentication_code_cbc"))["additional_data"], {k: v for k, v in ds.items() if k != "response_header_data"}) if resp else ""
-    chk.ob("handshake-mac-inputs", hs.site(), all(x in txt for x in ("response_header_data", "self.session_id.to_bytes(2, 'big')", "self.public_key", "ecdh_server_public_key")), f"SessionResponse MAC input: {txt}", key="handshake-inputs")
+    # the MAC call whose result is compared with the transmitted MAC (see the gate above)
+    resp = [n.value for n in walk_local(hs.node) if isinstance(n, ast.Assign) and len(n.targets) == 1 and isinstance(n.targets[0], ast.Name) and n.targets[0].id in cbc_n and any(mismatch_fact(mf[r.id], {n.targets[0].id}, tr_n) for r in raises)]
+    hdr_names = {k for k, v in ds.items() if isinstance(repo.fold(v, hs.module, hs.cls), bytes) and len(repo.fold(v, hs.module, hs.cls)) == 6}
+    txt = normalise(bind_call(resp[0], repo.func(PRIM, "calculate_message_authentication_code_cbc"))["additional_data"], {k: v for k, v in ds.items() if k not in hdr_names}, {k: "RESPONSE_HEADER" for k in hdr_names}) if resp else ""
+    sr = hs.node.args.args[1].arg
+    chk.ob("handshake-mac-inputs", hs.site(), all(x in txt for x in ("RESPONSE_HEADER", "self.session_id.to_bytes(2, 'big')", "self.public_key", f"{sr}.ecdh_server_public_key")), f"SessionResponse MAC input: {txt}", key="handshake-inputs")
 
 
 def cbc_padding(chk: Check, repo: Repo) -> None:
@@ -190,7 +221,11 @@ def cbc_padding(chk: Check, repo: Repo) -> None:
     n = 0
     for mod in ("xknx.secure.security_primitives", "xknx.secure.util"):
         for f in repo.module(mod).functions.values():
-            feeds_cbc = f.name == "byte_pad" or any(call_name(c).endswith("encryptor.update") for c in calls(f.node))
+            enc_vars = {n.targets[0].id for n in walk_local(f.node) if isinstance(n, ast.Assign) and len(n.targets) == 1 and isinstance(n.targets[0], ast.Name) and isinstance(n.value, ast.Call) and call_name(n.value).endswith(".encryptor")}
+
+            def is_update(c: ast.Call) -> bool:
+                return isinstance(c.func, ast.Attribute) and c.func.attr == "update" and isinstance(c.func.value, ast.Name) and c.func.value.id in enc_vars
+            feeds_cbc = f.name == "byte_pad" or any(is_update(c) for c in calls(f.node))
             if not feeds_cbc or f.name not in ("byte_pad", "calculate_message_authentication_code_cbc"):
                 continue
             an = _FuncAnalysis(mr, f, None)
@@ -202,10 +237,11 @@ def cbc_padding(chk: Check, repo: Repo) -> None:
                     ok = r is not None and 0 <= r[0] and r[1] <= 15
                     chk.ob("cbc-zero-padding-shorter-than-a-block", f.site(c), ok, f"{f.qualname}: `{ast.unparse(c)}` fills {r if r else 'an unknown number of'} octets" + ("" if ok else " — may add a whole block (or an unbounded run) to the authenticated message"), key=f"pad|{f.qualname}|{ast.unparse(c)[:50]}")
             if f.name == "calculate_message_authentication_code_cbc":
-                ups = [c for c in calls(f.node) if call_name(c).endswith("encryptor.update")]
+                ups = [c for c in calls(f.node) if is_update(c)]
                 ok = len(ups) == 1 and isinstance(ups[0].args[0], ast.Call) and call_name(ups[0].args[0]) == "byte_pad" and any(k.arg == "block_size" and repo.fold(k.value, f.module, None) == 16 for k in ups[0].args[0].keywords)
                 chk.ob("cbc-input-is-padded-once-to-the-block-size", f.site(), ok, f"CBC input: {[ast.unparse(u.args[0])[:60] for u in ups]} (one update over byte_pad(.., block_size=16))", key="pad|cbc-input")
     chk.floor("zero-fill sites feeding CBC", n, 1)
+    chk.floor("CBC input rules", sum(1 for o in chk.obligations if o.rule == "cbc-input-is-padded-once-to-the-block-size"), 1)
 
 
 def run(chk: Check, repo: Repo) -> None:
